@@ -281,6 +281,11 @@ def check(ctx):
         sp = [(b, c) for (b, c) in body.calls if (c.get("fname") or "").endswith("_from_stream")]
         if sw is None:
             ctx.ob("R12.4", f"{k}|transition-switch", False, site, "no test of sequential_transition"); continue
+        # the arm is selected by the caller's flag itself: `sequential_transition && <something else>` (e.g. "only for concurrency_limit == 1") silently turns the
+        # sequential transition the caller asked for into the parallel one for the other configurations
+        e_sw = strip_casts(dg.expr(body.term(sw[0])[1]))
+        is_flag = e_sw[0] == "field" and e_sw[1] == "sequential_transition" and strip_casts(e_sw[2])[0] == "param"
+        ctx.ob("R12.4", f"{k}|arm-selected-by-the-caller-s-flag", is_flag, body.loc(sw[0]), f"the transition arm is selected by `{show(e_sw)[:80]}`; required: the sequential_transition argument itself")
         R_ = lambda t: {t} | body.reach_from(t)
         seq = [(b, c) for (b, c) in sp if b in R_(sw[1]) and b not in R_(sw[2])]
         par = [(b, c) for (b, c) in sp if b in R_(sw[2]) and b not in R_(sw[1])]
